@@ -261,7 +261,10 @@ def _adv(draw):
 @st.composite
 def _from_others(draw):
     mods = _mods()
-    pid = draw(st.sampled_from(sorted(mods)))
+    # the eliminations, compositions and quotients reach the deepest code: weight them
+    pid = draw(st.sampled_from(sorted(mods) + [m for m in ("C04", "C04", "C04", "C01", "C02", "C02") if m in mods]))
+    if pid == "C04" and draw(st.booleans()):
+        return {"part": "A", "src": pid, "case": draw(mods[pid].deep_strategy())}
     return {"part": "A", "src": pid, "case": draw(mods[pid].strategy("quick"))}
 
 
